@@ -42,6 +42,7 @@ type Ob struct {
 }
 
 type Ctx struct {
+	strictUnlock map[*ssa.Function]bool // functions in which an Unlock with no reaching Lock is reported
 	P           *Prog
 	Prop        string
 	Tier        string
